@@ -29,7 +29,7 @@ func schedules(c *engine.Ctx) {
 	rw.SilenceStdout()
 	_ = sched.NewRaceReports()
 	docs := Docs()
-	for _, dn := range []string{"full-multiroot", "full-tree", "sparse"} {
+	for _, dn := range []string{"full-multiroot", "full-tree", "sparse", "spare-capacity"} {
 		dn := dn
 		ops := Ops(docs[dn]())
 		sel := selectOps(ops, c.Thorough())
